@@ -3,7 +3,8 @@
    for all inputs; net/url and net/http (parsing, EscapedPath, ParseQuery/Encode, framing, header
    reading and writing) are part of the model and validated by the correspondence run only.  Method
    and body pass through the model unchanged by construction: their fidelity rests on the
-   correspondence run (digest and length compared). Connection upgrades are outside the model. *)
+   correspondence run (digest and length compared).  For connection upgrades the request the upstream receives
+   is modelled (C04_upgrade_forwarded); the tunnel after the upstream's answer is not. *)
 From KG Require Import Prelude C02_Model C02_Spec C02_Proofs C04_Model C04_Spec C04_Proofs.
 Open Scope Z_scope.
 Open Scope string_scope.
@@ -64,10 +65,10 @@ Print Assumptions C04_response_relayed.
    body is the malformed impersonation (500, text/plain, C02) *)
 Theorem C04_terminated_not_forwarded : forall token ip c q id authz reply,
   (c = CUnknown -> gateway token ip c q id authz reply = Terminated NotProxied (mkTerm 503 ["60"] true)) /\
-  (c <> CUnknown -> is_upgrade_request (q_headers q) = false -> asks (q_headers q) = true ->
+  (c <> CUnknown -> asks (q_headers q) = true ->
    forallb authz (asked_items (q_headers q)) = false ->
    gateway token ip c q id authz reply = Terminated ImpersonationRefused (mkTerm 403 [] true)) /\
-  (forall hc id1, filters (q_headers q) id authz = Pass hc id1 ->
+  (forall hc id1, filters_core (q_headers q) id authz = Pass hc id1 ->
      (c = CLimited -> gateway token ip c q id authz reply =
                       Terminated (RateLimited (q_events q)) (mkTerm 429 (if q_events q then [] else ["1"]) true)) /\
      (c = CNoEndpoint -> gateway token ip c q id authz reply = Terminated NoReadyEndpoint (mkTerm 503 ["60"] true)) /\
@@ -87,7 +88,32 @@ Theorem C04_method_body_preserved : forall token ip c q id authz reply up r,
 Proof. exact method_body_preserved. Qed.
 Print Assumptions C04_method_body_preserved.
 
+(* a connection upgrade (exec / attach / port-forward) reaches the upstream with the same method, body, Host,
+   path segment list and query multimap, and every client header that the gateway does not own (Authorization,
+   Impersonate-*, X-Forwarded-For, User-Agent, framing) arrives unchanged - Connection, Upgrade and the other
+   hop-by-hop headers included, which are forwarded on this path by design *)
+Theorem C04_upgrade_forwarded : forall token ip c q id authz reply up,
+  gateway token ip c q id authz reply = Upgraded up ->
+  p_method up = q_method q /\ p_body up = q_body q /\ p_host up = q_host q /\
+  segments (path_of (p_uri up)) = segments (path_of (q_target q)) /\ segments (path_of (q_target q)) <> None /\
+  (forall k, values_of k (parse_query (query_of (p_uri up))) = values_of k (parse_query (query_of (q_target q)))) /\
+  (from_server (q_headers q) ->
+   forall k, upgrade_owned k = false -> h_values k (p_headers up) = map trim_ows (h_values k (q_headers q))).
+Proof. exact upgrade_forwarded. Qed.
+Print Assumptions C04_upgrade_forwarded.
+
 (* ---- non-vacuity *)
+Example C04_upgrade_nonvacuous :
+  gateway "tok" "10.0.0.9" COk
+    (mkReq "POST" "/api/v1/namespaces/n/pods/a%2Fb/exec?command=ls&x=%zz" "ok.test"
+           [("Connection", ["Upgrade"]); ("Keep-Alive", ["5"]); ("Upgrade", ["SPDY/3.1"]); ("X-Custom", ["1"])] "" false)
+    (mkId "alice" ["g1"] []) (fun _ => true) (mkResp 101 [] "x") =
+  Upgraded (mkUp "POST" "/api/v1/namespaces/n/pods/a%2Fb/exec?command=ls" "ok.test"
+              [("Connection", ["Upgrade"]); ("Keep-Alive", ["5"]); ("Upgrade", ["SPDY/3.1"]); ("X-Custom", ["1"]);
+               ("X-Forwarded-For", ["10.0.0.9"]); ("User-Agent", ["Go-http-client/1.1"]);
+               ("Impersonate-User", ["alice"]); ("Impersonate-Group", ["g1"])] "").
+Proof. vm_compute. reflexivity. Qed.
+
 Example C04_path_nonvacuous :
   rebuild_target "/apis/x/v1/things/a%2Fb/sub%41?b=2&a=1&a=%zz&c;d=1&a=0&e" =
     Some "/apis/x/v1/things/a%2Fb/sub%41?a=1&a=0&b=2&e=" /\
